@@ -36,6 +36,11 @@ LOOPS = [b'function _init()\n x=1\nend\n', b'function _update60() end\n', b'func
 def site(kind, name, opt):
     o = b'' if opt is None else (b', {use_game_loop=%s}' % (b'true' if opt else b'false'))
     call = b'require("' + name.encode() + b'"' + o + b')'
+    if opt is None:
+        # the ways Lua lets one write a call with one string literal
+        n = name.encode()
+        call = (call, b"require('" + n + b"')", b'require "' + n + b'"', b'require[[' + n + b']]', b'require [==[' + n + b']==]',
+                b'require ( "' + n + b'" )', b"require'" + n + b"'", call)[(hash((kind, name)) & 0xffff) % 8]
     v = re.sub(rb'\W', b'_', name.encode())
     return {'stmt': call + b'\n', 'local': b'local m_' + v + b' = ' + call + b'\n',
             'infunc': b'function use_' + v + b'()\n  return ' + call + b'\nend\n',
@@ -44,7 +49,7 @@ def site(kind, name, opt):
             'chainhead': call + b'.go()\n'}[kind]
 
 
-def body_pieces(rnd, fid, reqs, opts, stmts, loops_at, sites):
+def body_pieces(rnd, fid, reqs, opts, stmts, loops_at, sites, ghost=False):
     """[(text, is_game_loop)] for one file"""
     marker = b'id_' + re.sub(rb'\W', b'_', fid.encode()) + b' = "' + fid.encode() + b'"\n'
     pieces = [(marker, False)]
@@ -58,6 +63,10 @@ def body_pieces(rnd, fid, reqs, opts, stmts, loops_at, sites):
                                    b'obj = {_draw = function() end}\nfunction obj:_init() end\n', b'function _initx() end\nfunction x_draw() end\n')), False))
     for pos in loops_at:
         lp = LOOPS[rnd.randrange(len(LOOPS))]
+        if ghost and rnd.randrange(2):
+            # a game-loop function that itself requires something (a test harness, say): when the function is stripped,
+            # so is its require - the file it names does not exist
+            lp = rnd.choice((b'function _init()\n local h = require("ghost")\n h.go()\nend\n', b'function _draw() require "ghost2" end\n'))
         k = {'start': 0, 'middle': max(1, len(pieces) // 2), 'end': len(pieces)}[pos]
         pieces.insert(k, (lp, True))
     return pieces
@@ -77,7 +86,8 @@ def _case(item):
     for f in graph['exists']:
         loops_at = rnd.choice(([], ['start'], ['middle'], ['end'], ['start', 'end'], ['middle', 'middle']))
         stmts = [stmts_pool[rnd.randrange(len(stmts_pool))] for _ in range(rnd.randrange(0, 3))]
-        pieces = body_pieces(rnd, f, graph['req'].get(f, []), opts, stmts, loops_at if f != 'main' else [], sites)
+        pieces = body_pieces(rnd, f, graph['req'].get(f, []), opts, stmts, loops_at if f != 'main' else [], sites,
+                             ghost=not any(o is True for o in opts.values()))
         text = b''.join(p for p, _ in pieces)
         final_nl = rnd.randrange(3) != 0
         if not final_nl:
@@ -218,8 +228,11 @@ def illformed(ctx):
     with open(os.path.join(S, 'p.lua'), 'wb') as f:
         f.write(b'x=1\n')
     bad = [b'require("nothere")\n', b'local n="p" require(n)\n', b'require("p", {use_game_loop=1})\n', b'require("p", {other=true})\n', b'require("p", true)\n',
-           b'require()\n', b'require("p", {use_game_loop=true}, 3)\n', b'require("p" .. "q")\n']
-    good = [b'require("p")\n', b'require("p", {use_game_loop=true})\n', b'require("p", {use_game_loop=false})\n']
+           b'require()\n', b'require("p", {use_game_loop=true}, 3)\n', b'require("p" .. "q")\n', b'require{"p"}\n', b'require "nothere"\n',
+           b'require("p", {use_game_loop=true, other=1})\n', b'require(p)\n', b'require(1)\n', b'require({})\n', b'x = {require("nothere2")}\n',
+           b'function f() return require [[nothere3]] end\n']
+    good = [b'require("p")\n', b'require("p", {use_game_loop=true})\n', b'require("p", {use_game_loop=false})\n', b'require "p"\n', b'require[[p]]\n',
+            b"require'p'\n", b'local r = require\n', b'x.require(1)\n', b'x = require "p".y\n']
     for k, (src, must_fail) in enumerate([(s, True) for s in bad] + [(s, False) for s in good]):
         with open(os.path.join(S, 'main.lua'), 'wb') as f:
             f.write(src)
